@@ -11,6 +11,7 @@ package main
 import (
 	"fmt"
 	"math"
+	"sort"
 	"strconv"
 	"strings"
 
@@ -69,21 +70,28 @@ func (w *walker) encodeables(after string) {
 			continue
 		}
 		if k > 0 && !(prevName < dv.Name) {
-			w.fail("C11:written-figures", "catchment:encodeable-variables-not-in-name-order", fmt.Sprintf("after %s: %q listed after %q", after, dv.Name, prevName))
+			// the order in which a solution lists its variables is nobody's property: counted, and canonicalised below
+			w.c.Stat("enc: the solution lists its variables in another order than by name (not compared)")
 		}
 		prevName = dv.Name
 		byVar[vi] = dv
 		var sb strings.Builder
 		fmt.Fprintf(&sb, "%s %s %d", varShort[vi], gridFmt(dv.Value, varPrec[vi]), len(dv.ValuePerPlanningUnit))
 		sum := 0.0
-		var prevUnit planningunit.Id
-		for j, pv := range dv.ValuePerPlanningUnit {
+		listed := append(variable.PlanningUnitValues(nil), dv.ValuePerPlanningUnit...)
+		sort.SliceStable(listed, func(a, b int) bool { return listed[a].PlanningUnit < listed[b].PlanningUnit })
+		seenUnit := map[planningunit.Id]bool{}
+		for j, pv := range listed {
 			fmt.Fprintf(&sb, " %d=%s", pv.PlanningUnit, gridFmt(pv.Value, varPrec[vi]))
 			sum += pv.Value
-			if j > 0 && !(prevUnit < pv.PlanningUnit) {
-				w.fail("C11:written-figures", "catchment:encodeable-units-not-sorted:"+varShort[vi], fmt.Sprintf("after %s: %s lists unit %d after unit %d", after, dv.Name, pv.PlanningUnit, prevUnit))
+			if dv.ValuePerPlanningUnit[j].PlanningUnit != pv.PlanningUnit {
+				w.c.Stat("enc: a variable lists its planning units in another order than by id (not compared)")
 			}
-			prevUnit = pv.PlanningUnit
+			// a unit listed twice would be counted twice by every reader that sums the list
+			if seenUnit[pv.PlanningUnit] {
+				w.fail("C11:written-figures", "catchment:encodeable-unit-listed-twice:"+varShort[vi], fmt.Sprintf("after %s: %s lists unit %d twice", after, dv.Name, pv.PlanningUnit))
+			}
+			seenUnit[pv.PlanningUnit] = true
 			// every listed figure is the model's own per-unit value
 			if mv := cm.unit(vi, pv.PlanningUnit); !near(mv, pv.Value) {
 				w.fail("C11:written-figures", "catchment:encodeable-unit-differs-from-model:"+varShort[vi], fmt.Sprintf("after %s: %s unit %d written as %v, the model holds %v (set %s)", after, dv.Name, pv.PlanningUnit, pv.Value, mv, bitsStr(cm.flags())))
@@ -171,6 +179,8 @@ func (w *walker) encodeables(after string) {
 	for _, p := range sol.PlanningUnits {
 		ids += fmt.Sprintf(" %d", p)
 	}
+	// canonical order of the line: by the variable's name as the model lists them (dn ic oc pn sed tn)
+	sort.SliceStable(parts, func(a, b int) bool { return parts[a] < parts[b] })
 	w.op(line+ids, strings.Join(parts, " | "))
 	w.managementActionsFile(after, sol, ids)
 }
@@ -208,7 +218,15 @@ func (w *walker) managementActionsFile(after string, sol *solution.Solution, ids
 			ti = -1
 		}
 		cols = append(cols, ti)
-		fmt.Fprintf(&sb, " %d", ti)
+	}
+	// canonical column order of the line: by action type (the order of the columns in the file is nobody's property)
+	order := make([]int, len(cols))
+	for i := range order {
+		order[i] = i
+	}
+	sort.SliceStable(order, func(a, b int) bool { return cols[order[a]] < cols[order[b]] })
+	for _, ci := range order {
+		fmt.Fprintf(&sb, " %d", cols[ci])
 	}
 	sb.WriteString(" |")
 	type key struct {
@@ -235,9 +253,11 @@ func (w *walker) managementActionsFile(after string, sol *solution.Solution, ids
 			continue
 		}
 		fmt.Fprintf(&sb, " %d:", pu)
+		for _, ci := range order {
+			sb.WriteString(strings.TrimSpace(cells[1+ci]))
+		}
 		for ci, c := range cells[1:] {
 			c = strings.TrimSpace(c)
-			sb.WriteString(c)
 			k := key{planningunit.Id(pu), cols[ci]}
 			seen[k] = true
 			if (c == "1") != active[k] {
